@@ -7699,7 +7699,7 @@ let rec parse_tokens pe_ok front_ok cfg_ok ts s para cfgs =
      | TVerb (_, lang, _) ->
        (match lang with
         | [] -> LErr
-        | _ :: _ -> parse_tokens pe_ok front_ok cfg_ok r s para cfgs)
+        | _ :: _ -> parse_tokens pe_ok front_ok cfg_ok r s [] cfgs)
      | TTest (cfg, _, code, _) ->
        if match cfg with
           | Some c -> cfg_ok c
@@ -7810,12 +7810,15 @@ let rec md_tests_from d line st =
   | e :: r ->
     let next = add line (length (render_elem e)) in
     (match e with
+     | EFront _ -> md_tests_from r next st
      | EProse l -> md_tests_from r next (title_line st l)
      | EHeading (k, t) ->
        md_tests_from r next
          (title_line st
            (app (hashes k) (app ((Npos (XO (XO (XO (XO (XO XH)))))) :: []) t)))
      | EBlank -> md_tests_from r next (title_line st [])
+     | EForeign (_, _, _, _) ->
+       md_tests_from r next { ts_para = []; ts_title = st.ts_title }
      | EScrut (_, cfg, comments, cmd, _) ->
        (match cmd with
         | Some p ->
@@ -7829,8 +7832,7 @@ let rec md_tests_from d line st =
           (add (add line (S O)) (length comments))) }; mt_cfg =
           cfg } :: (md_tests_from r next { ts_para = []; ts_title = None })
         | None ->
-          md_tests_from r next { ts_para = []; ts_title = st.ts_title })
-     | _ -> md_tests_from r next st)
+          md_tests_from r next { ts_para = []; ts_title = st.ts_title }))
 
 (** val md_tests_of : elem list -> mtest list **)
 
